@@ -36,6 +36,7 @@ CORE = "clematis.engine.orchestrator.core"
 RUN_TURN = CORE + ":Orchestrator.run_turn"
 PAR = "clematis.engine.orchestrator.parallel"
 BATCH = PAR + ":_run_agents_parallel_batch"
+STAGES = "clematis.engine.stages."
 
 _STATE_STORE = re.compile(r"^(store `(state|obj)\[|setattr\((state|obj)\b|store `state\.|`state\.(setdefault|update|pop|clear)\()")
 
@@ -601,7 +602,82 @@ def rule_retry_admitted(ctx) -> None:
                   "and the RuntimeError leaves the batch driver - the outcome depends on the staging limit")
 
 
+def rule_readers_accept_the_view(ctx) -> None:
+    """"the same per-agent results": the compute phase runs the real run_turn on readonly_snapshot(state), which hands out the
+    state's containers as frozen VIEWS - mappings that are not dicts, sequences that are not lists, without mutators.  Stage
+    code that reads the state (everything run_turn hands `state` to before the dry-run return, and what that code hands the
+    values on to) must behave the same on a view: no exact-container-type test on a value taken out of the state (the false
+    branch reads real data as absent: cooldown history invisible, GEL edge weights 0), and no in-place completion of such a
+    value (setdefault on the GEL graph raises on the view; the fail-soft wrapper then switches the layer off in the parallel run
+    only)."""
+    from ..hazards import controls, frozen_view_hazards
+    fn = ctx.func(RUN_TURN)
+    cfg = ctx.cfg(fn)
+    sp = "state" if "state" in fn.params else None
+    if sp is None:
+        raise AnalysisError("anchor-vanished: run_turn's state parameter")
+    # what freeze() turns into views (the rule is about exactly these)
+    fz = ctx.func("clematis.engine.stages.state_clone:freeze")
+    if not any(isinstance(x, ast.Call) and call_tail(x) in ("FrozenDict", "FrozenList") for x in walk_no_defs(fz.node)):
+        raise AnalysisError("anchor-vanished: freeze() no longer wraps containers in FrozenDict / FrozenList")
+    entries = []
+    for n in cfg.nodes:
+        if _dry_infeasible(cfg, n):
+            continue
+        for c in node_calls(n):
+            pos = [i for i, a in enumerate(c.args) if isinstance(a, ast.Name) and a.id == sp]
+            if not pos:
+                continue
+            r = ctx.prog.callee(fn, c)
+            if r is None and isinstance(c.func, ast.Call) and c.func.args:
+                # _get_stage_callable("t2_semantic", t2_semantic)(ctx, state, ...): the fallback names the real stage
+                last = c.func.args[-1]
+                if isinstance(last, ast.Name):
+                    r = ctx.prog.resolve_dotted(fn.module, last.id, fn)
+            if r is None and isinstance(c.func, ast.Name):
+                # a local bound to such a facade call
+                for x in walk_no_defs(fn.node):
+                    if isinstance(x, ast.Assign) and len(x.targets) == 1 and isinstance(x.targets[0], ast.Name) and x.targets[0].id == c.func.id and isinstance(x.value, ast.Call) and x.value.args \
+                            and isinstance(x.value.args[-1], ast.Name):
+                        r = ctx.prog.resolve_dotted(fn.module, x.value.args[-1].id, fn)
+            if not r or r[0] != "func" or not ctx.prog.has_func(r[1]):
+                continue
+            cal = ctx.prog.func(r[1])
+            if not cal.module.name.startswith(STAGES):
+                continue   # orchestrator-side helpers (boot loader, reflection, health) gate themselves / have findings of their own
+            ps = [p for p in cal.params if p not in ("self", "cls")]
+            for i in pos:
+                if i < len(ps):
+                    entries.append((cal, ps[i]))
+    entries = list({(f.qual, p): (f, p) for f, p in entries}.values())
+    ctx.floor("C10.RO", "stage functions run_turn hands the state to in the compute phase", len(entries), 3)
+    gates, muts = frozen_view_hazards(ctx, entries, depth=4, within=(STAGES, "clematis.memory", "clematis.graph"))
+    # run_turn's own reads of the state, where they are reachable in a dry run
+    g0, m0 = frozen_view_hazards(ctx, [(fn, sp)], depth=0)
+    feas = lambda node: any(not _dry_infeasible(cfg, n) for n in cfg.node_containing(node))
+    gates += [r for r in g0 if feas(r[1])]
+    muts += [r for r in m0 if feas(r[1])]
+    ctx.info("C10.RO", "positive-control/state-view-readers", "sa/hazards.py", controls(ctx, "clematis.engine.health", ["view"]))
+    ctx.notes.append(f"C10.RO: compute-phase state readers: {sorted(f.qual.split(':')[1] + '(' + p + ')' for f, p in entries)}")
+    by_fn = {}
+    for f, node, text in gates:
+        by_fn.setdefault((f.qual, "exact-type-gate"), []).append((f, node, text))
+    for f, node, text in muts:
+        by_fn.setdefault((f.qual, "in-place-completion"), []).append((f, node, text))
+    for (q, kind), rows in sorted(by_fn.items()):
+        rows.sort(key=lambda r: (getattr(r[1], "lineno", 0), getattr(r[1], "col_offset", 0)))
+        for i, (f, node, text) in enumerate(rows, 1):
+            what = (f"`{src(node)[:60]}` tests a value taken out of the state for the exact container type: through the read-only view of the compute phase the value is a mapping / sequence that is "
+                    "NOT that type - real data is read as absent in the parallel run only (its results differ from the sequential run)") if kind == "exact-type-gate" else \
+                   (f"`{src(node)[:60]}` completes a container of the state in place: the read-only view of the compute phase has no mutators - the call raises there (a fail-soft wrapper then drops the "
+                    "layer in the parallel run only), and on a live state a reading stage edits the state")
+            ctx.violation("C10.RO", f"{q}/state-view-{kind}#{i}", f.loc(node), what)
+    if not by_fn:
+        ctx.holds("C10.RO", f"{fn.qual}/state-readers-accept-the-view", fn.loc(), f"no exact-type test or in-place completion on values taken out of the state in {len(entries)} compute-phase readers and their callees")
+
+
 def run(ctx) -> None:
+    rule_readers_accept_the_view(ctx)
     rule_retry_admitted(ctx)
     rule_capture_snapshot(ctx)
     rule_ro(ctx)
